@@ -42,6 +42,7 @@ other strings, the counters of the constructor. -/
 structure Stores (S : List Str) (d : D) : Prop where
   b2 : 2 ≤ d.bucketsize
   elements : d.elements = S.length
+  buckets : d.buckets = (chunks d.bucketsize S).length
   headers : d.headers = (chunks d.bucketsize S).map (·.headD [])
   nstreams : d.streams.length = (chunks d.bucketsize S).length
   streams : ∀ (k : Nat) (c : List Str) (σ : List Nat), (chunks d.bucketsize S)[k]? = some c → d.streams[k]? = some σ →
